@@ -21,9 +21,11 @@ Definition qe (m k : Z) : Q := (inject_Z m * Qpower (10 # 1) k)%Q.
 Definition tol : Q := pow2 (-50).
 Definition qclose (a b : Q) : bool := close tol 0 a b.
 
+(* nested ifs, not &&: under vm_compute (call by value) the values are then compared only for entries with equal keys *)
 Definition entry_close (a b : entry) : bool :=
-  keys_eqb (e_keys a) (e_keys b) && forallb2 Z.eqb (e_shape a) (e_shape b)
-  && forallb2 (forallb2 qclose) (e_vals a) (e_vals b).
+  if keys_eqb (e_keys a) (e_keys b) then
+    if forallb2 Z.eqb (e_shape a) (e_shape b) then forallb2 (forallb2 qclose) (e_vals a) (e_vals b) else false
+  else false.
 (* same key set, and for every key the same shape and values (order of the entries is immaterial) *)
 Definition table_eqv (a b : table) : bool :=
   Nat.eqb (List.length a) (List.length b) && forallb (fun x => existsb (entry_close x) b) a.
